@@ -289,6 +289,35 @@ def _adt_of_ref_operand(fn, o):
             ty = fn.types[ty['to']]
     if ty is not None and ty.get('k') == 'adt':
         return ty.get('path')
+    # a value of a generic parameter type (the body of a helper generic in `T` that was made transparent): the type of what
+    # was moved into it - through `&x`, plain moves and results of calls whose declared type is concrete
+    l = p['l']
+    for _ in range(8):
+        defs = [s['rv'] for bi in fn.reachable() for s in fn.blocks[bi]['stmts']
+                if s['k'] == 'assign' and not s['lhs']['p'] and s['lhs']['l'] == l]
+        if not defs:
+            calls = [t for b_, t in fn.calls() if not t['dest']['p'] and t['dest']['l'] == l]
+            cf = getattr(fn, 'facts_ref', None).fns.get(calls[0].get('callee') or '') if len(calls) == 1 and getattr(fn, 'facts_ref', None) else None
+            if cf is not None:
+                rty = cf.local_ty(0)
+                if rty is not None and rty.get('k') == 'adt':
+                    return rty.get('path')
+            break
+        if len(defs) != 1:
+            break
+        rv = defs[0]
+        q = rv['p'] if rv['k'] == 'ref' else (op_place(rv['a']) if rv['k'] == 'use' else None)
+        if q is None:
+            break
+        ty = place_prefix_type(fn, q, len(q['p']))
+        for _i in range(3):
+            if ty is not None and ty.get('k') in ('ref', 'ptr'):
+                ty = fn.types[ty['to']]
+        if ty is not None and ty.get('k') == 'adt':
+            return ty.get('path')
+        if q['p']:
+            break
+        l = q['l']
     return None
 
 
